@@ -1,6 +1,7 @@
 """Which engines decide which property (see DESIGN.md section 3)."""
 
-BOTH = [{'forbid_unsafe': False}, {'forbid_unsafe': True}]
+# the verif_hooks feature is always configured OUT for the Verus units: they verify the code as shipped
+BOTH = [{'forbid_unsafe': False, 'verif_hooks': False}, {'forbid_unsafe': True, 'verif_hooks': False}]
 
 TRUSTED_BASE = [
     'Verus 0.2026.09.13 (rust_verify, VIR/AIR encoding) and its bundled Z3',
